@@ -208,6 +208,14 @@ def closure_source(spec, spelling):
         pre = ['class Other: pass', 'K = Other']
         inner = ['class K: pass'] + f + ["__rec__.probe('after_alive', f, K)", 'return f, K']
         post = ["__rec__.probe('after_returned', f, K_)"]
+    elif target == 'two_activations':
+        # the enclosing function runs twice: the first activation calls its closure while it runs, the second one's closure is
+        # first called after its activation has returned; each closure is about its own activation's class
+        lines = [f'def outer{depth}(call_inside):'] + indent(f + ['class K: pass', 'if call_inside:', "    __rec__.probe('after_alive', f, K)",
+                                                                  'return f, K'], 1)
+        for d in range(depth - 1, 0, -1):
+            lines = [f'def outer{d}(call_inside):'] + indent(lines + [f'return outer{d + 1}(call_inside)'], 1)
+        return '\n'.join(head + lines + ['fa, Ka = outer1(True)', 'fb, Kb = outer1(False)', "__rec__.probe('after_returned', fb, Kb)"]) + '\n'
     elif target == 'local_late':
         inner = f + (["__rec__.probe('before', f, None)"] if spec['order'] == 'call_define_call' else []) + ['class K: pass'] + \
             (["__rec__.probe('after_alive', f, K)"] if spec['order'] != 'returned_only' else []) + ['return f, K']
